@@ -578,7 +578,7 @@ func RunCheck(prop, tier string, seed int64) int {
 			pending := batches[i]
 			// a died worker loses the rest of its batch: re-run the remaining cases in a fresh process
 			for attempt := 0; len(pending) > 0 && attempt < len(batches[i])+1; attempt++ {
-				if watchdogs.Load() >= 4 {
+				if watchdogs.Load() >= int64(max(4, len(cases)/20)) {
 					break // circuit breaker: the tree hangs, stop burning time (the run ends inconclusive)
 				}
 				bo := runBatch(chk, pending, work, i*1000+attempt)
